@@ -305,6 +305,16 @@ where
         // read the remainder polynomial from the channel and make sure it agrees with the evaluations
         // from the previous layer.
         let remainder_poly = channel.read_remainder()?;
+
+        // make sure the remainder polynomial is the one the prover committed to before the query
+        // positions were drawn: the prover sends the hash of the remainder coefficients as the
+        // commitment which follows the commitments to the FRI layers (see FriProver::set_remainder)
+        let num_layers = self.options.num_fri_layers(self.domain_size);
+        let remainder_commitment = <H as ElementHasher>::hash_elements(&remainder_poly);
+        if self.layer_commitments.get(num_layers) != Some(&remainder_commitment) {
+            return Err(VerifierError::RemainderCommitmentMismatch);
+        }
+
         if remainder_poly.len() > max_degree_plus_1 {
             return Err(VerifierError::RemainderDegreeMismatch(max_degree_plus_1 - 1));
         }
